@@ -554,12 +554,15 @@ NflogMerge(gk, name, ts, firing, resolved) ==
 ApiAlerts(list) ==
   LET names == {list[j].l : j \in 1..Len(list)}
       E(a) == list[CHOOSE j \in 1..Len(list) : list[j].l = a]
+      \* a silence matching a starts or ends at this very instant (e.g. it was just expired: end = now,
+      \* or a pending one: start = end = now): both answers are accepted at equality instants
+      SilEdge(a) == \E i \in 1..Len(sil) : SilMatches(sil[i].ms, a) /\ (sil[i].start = now \/ sil[i].end = now)
       bad ==
-        (IF \E a \in names \cap Alerts : FiringAt(a, now) /\ ((E(a).nsil > 0) # MutedAt(a, now))
+        (IF \E a \in names \cap Alerts : FiringAt(a, now) /\ ~SilEdge(a) /\ ((E(a).nsil > 0) # MutedAt(a, now))
            THEN {"C02_api_status_differs_from_stored_silences"} ELSE {})
         \cup (IF \E a \in names \cap Alerts : FiringAt(a, now) /\ ((E(a).ninh > 0) # InhibitedAt(a, now))
            THEN {"C03_api_inhibition_status_differs_from_rule"} ELSE {})
-        \cup (IF \E a \in names \cap Alerts : FiringAt(a, now) /\ ((E(a).state = "suppressed") # SuppressedAt(a, now))
+        \cup (IF \E a \in names \cap Alerts : FiringAt(a, now) /\ ~SilEdge(a) /\ ((E(a).state = "suppressed") # SuppressedAt(a, now))
            THEN {"C02_api_state_differs"} ELSE {})
         \cup (IF \E a \in DOMAIN ver : FiringAt(a, now) /\ a \notin names THEN {"C13_firing_alert_not_listed"} ELSE {})
         \cup (IF \E a \in names \cap DOMAIN ver : ver[a].end < now THEN {"C13_resolved_alert_listed"} ELSE {})
